@@ -107,6 +107,18 @@ class H(Hooks):
         hole = tuple(s.hole_cards[i])
         if len(hole) < 2 or not all(hole):
             return
+        # "in tournament mode an all-in ... showdown requires all hole cards
+        # to be shown" (the Mode documentation: in all-in situations hole
+        # cards must be shown): a known hand cannot be mucked there either
+        if s.all_in_status:
+            self.probes += 1
+            if s.can_show_or_muck_hole_cards(False):
+                self.viol.append(V(
+                    ID, 'tournament_all_in_muck_accepted', '',
+                    f'tournament all-in showdown (street {s.street_index}):'
+                    f' show_or_muck_hole_cards(False) for {hole} is'
+                    ' accepted'))
+                return
         # a hand with one rank or suit withheld ('AcK?') is not a shown hand
         from pokerkit import Card
         for j in (0, len(hole) - 1):
